@@ -412,6 +412,12 @@ func doRead(ms *yang.Modules, op readOp) string {
 		return "path:" + e.Path()
 	case "kind":
 		r := "kind:" + e.Kind.String()
+		if e.Modules() != nil {
+			r += "M"
+		}
+		if w, ok := e.GetWhenXPath(); ok {
+			r += "when=" + w
+		}
 		for _, b := range []bool{e.IsDir(), e.IsLeaf(), e.IsLeafList(), e.IsList(), e.IsContainer(), e.IsChoice(), e.IsCase()} {
 			if b {
 				r += "1"
